@@ -972,7 +972,7 @@ func (g *gen) genCase(id int) *Case {
 			ra := ReqArg{H: nd.h, Kind: []int{0, 0, 1, 2}[g.r.Intn(4)]}
 			if g.p(0.35) {
 				for j := 1 + g.r.Intn(2); j > 0; j-- {
-					ra.Secs = append(ra.Secs, 2+g.r.Intn(5))
+					ra.Secs = append(ra.Secs, g.helpSec())
 				}
 			}
 			c.ReqArgs = append(c.ReqArgs, ra)
@@ -984,7 +984,7 @@ func (g *gen) genCase(id int) *Case {
 	if c.Help && g.p(0.3) {
 		// Help(sections...) with an explicit choice and order of sections
 		for k := 1 + g.r.Intn(3); k > 0; k-- {
-			c.HelpSecs = append(c.HelpSecs, 2+g.r.Intn(5))
+			c.HelpSecs = append(c.HelpSecs, g.helpSec())
 		}
 	}
 	return c
@@ -1005,4 +1005,12 @@ func (g *gen) moreFns() []int {
 		out = append(out, 5+g.r.Intn(2))
 	}
 	return out
+}
+
+// a help section for Help(...) / GetRequiredArg(..., sections...): HelpName … HelpCommandInfo, now and then HelpNone
+func (g *gen) helpSec() int {
+	if g.p(0.08) {
+		return 0
+	}
+	return 2 + g.r.Intn(5)
 }
